@@ -602,50 +602,59 @@ func (n *BlockNode) Release() {
 
 // Render renders the block node
 func (n *BlockNode) Render(w io.Writer, ctx *RenderContext) error {
-	// Determine which content to use - from context blocks or default
-	var content []Node
-
-	// Store the current block content as parent content if needed
-	// This is critical for multi-level inheritance
-	if _, exists := ctx.parentBlocks[n.name]; !exists {
-		// First time we've seen this block - store its original content
-		// This needs to happen for any block, not just in extending templates
-		if blockContent, ok := ctx.blocks[n.name]; ok && len(blockContent) > 0 {
-			// Store the content from blocks
-			ctx.parentBlocks[n.name] = blockContent
-		} else {
-			// Otherwise store the default body
-			ctx.parentBlocks[n.name] = n.body
-		}
-	}
-
-	// Now get the content to render
-	if blockContent, ok := ctx.blocks[n.name]; ok && len(blockContent) > 0 {
-		content = blockContent
-	} else {
-		// Otherwise, use the default content from this block node
-		content = n.body
+	// The content to render is the most derived definition of this block along
+	// the extends chain (an empty definition renders nothing); a block nobody
+	// overrides, or one that was not collected, renders its own body
+	defs := ctx.blockChain[n.name]
+	content := n.body
+	if len(defs) > 0 {
+		content = defs[0]
 	}
 
 	// Save the current block for parent() function support
 	previousBlock := ctx.currentBlock
+	previousLevel := ctx.blockLevel
 	ctx.currentBlock = n
+	ctx.blockLevel = 0
 
-	// Create an isolated context for rendering this block
-	// This prevents parent() from accessing the wrong block context
-	blockCtx := ctx
+	// Restore the previous block when done, also on errors
+	defer func() {
+		ctx.currentBlock = previousBlock
+		ctx.blockLevel = previousLevel
+	}()
 
 	// Render the appropriate content
 	for _, node := range content {
-		err := node.Render(w, blockCtx)
+		err := node.Render(w, ctx)
 		if err != nil {
 			return err
 		}
 	}
 
-	// Restore the previous block
-	ctx.currentBlock = previousBlock
 	return nil
+}
+
+// collectBlocks appends the definition of every block found in nodes (also
+// blocks nested in blocks, loops and conditions) to the context's block chain
+func collectBlocks(nodes []Node, ctx *RenderContext) {
+	for _, node := range nodes {
+		switch b := node.(type) {
+		case *BlockNode:
+			if ctx.blockChain == nil {
+				ctx.blockChain = make(map[string][][]Node)
+			}
+			ctx.blockChain[b.name] = append(ctx.blockChain[b.name], b.body)
+			collectBlocks(b.body, ctx)
+		case *IfNode:
+			for _, body := range b.bodies {
+				collectBlocks(body, ctx)
+			}
+			collectBlocks(b.elseBranch, ctx)
+		case *ForNode:
+			collectBlocks(b.body, ctx)
+			collectBlocks(b.elseBranch, ctx)
+		}
+	}
 }
 
 // ExtendsNode represents an extends directive
@@ -751,6 +760,15 @@ func (n *ExtendsNode) Render(w io.Writer, ctx *RenderContext) error {
 	// These are the blocks that will actually be rendered
 	for name, nodes := range ctx.blocks {
 		parentCtx.blocks[name] = nodes
+	}
+
+	// Hand the definitions collected so far (most derived first) to the parent,
+	// which appends its own when it is rendered
+	if len(ctx.blockChain) > 0 {
+		parentCtx.blockChain = make(map[string][][]Node, len(ctx.blockChain))
+		for name, defs := range ctx.blockChain {
+			parentCtx.blockChain[name] = append([][]Node(nil), defs...)
+		}
 	}
 
 	// Render the parent template with the updated context
@@ -1500,6 +1518,10 @@ func (n *RootNode) Render(w io.Writer, ctx *RenderContext) error {
 			extendsNode = ext
 		}
 	}
+
+	// Record this template's block definitions behind those of the templates
+	// that extend it
+	collectBlocks(n.children, ctx)
 
 	// If this template extends another, handle that first
 	if extendsNode != nil {
